@@ -2,9 +2,9 @@
    This file contains nothing but the property theorems, each closed by [exact] of a lemma from
    Proofs/, with Print Assumptions beneath.  Model: Model/C10_RayTransfer.v. *)
 Require Import Cherab.Common.Qx.
-Require Import Cherab.Model.C10_RayTransfer.
+Require Import Cherab.Model.C10_RayTransfer Cherab.Model.C10_Pipeline.
 Require Import Cherab.Proofs.C10_Loop Cherab.Proofs.C10_Count Cherab.Proofs.C10_Chord Cherab.Proofs.C10_Cart
-               Cherab.Proofs.C10_Maps.
+               Cherab.Proofs.C10_Maps Cherab.Proofs.C10_Pipeline.
 From Coq Require Import Qabs.
 Open Scope Q_scope.
 
@@ -131,6 +131,36 @@ Theorem C10_sample_point_formula :
   s1 + (/ len * d1) * t_of (dt_of len n) k == Qred (s1 + d1 * lam_of n k).
 Proof. exact point_lam_literal. Qed.
 Print Assumptions C10_sample_point_formula.
+
+(* pipelines.py, 0D: whatever the pipeline object did before (any state st), after observe() its matrix is the mean, over
+   ALL samples of this observation (any split into tasks), of spectrum [* sensitivity for 'power'] *)
+Theorem C10_pipeline0d_matrix_is_mean_of_own_samples :
+  forall (st : p0) (tasks : list (list sample)) j,
+  p0_matrix (p0_observe st tasks) j ==
+  sample_sum (p0_kind st) (concat tasks) j / inject_Z (Z.of_nat (length (concat tasks))).
+Proof. exact p0_observe_mean. Qed.
+Print Assumptions C10_pipeline0d_matrix_is_mean_of_own_samples.
+
+(* the matrices of a history of observations do not depend on the state of the pipeline object before the history *)
+Theorem C10_pipeline0d_history_independent :
+  forall st st' h, p0_history st h = p0_history st' h.
+Proof. exact p0_history_independent. Qed.
+Print Assumptions C10_pipeline0d_history_independent.
+
+(* 1D / 2D: every pixel the observer updated holds the sum of its samples divided by pixel_samples, every other pixel zeros,
+   whatever the state before *)
+Theorem C10_pipelineNd_rows_are_means :
+  forall (st : pn) ps (tasks : list (pixel * list sample)), NoDup (map fst tasks) ->
+  (forall p sm j, In (p, sm) tasks ->
+     pn_matrix (pn_observe st ps tasks) p j == sample_sum (pn_kind st) sm j / inject_Z ps) /\
+  (forall p j, ~ In p (map fst tasks) -> pn_matrix (pn_observe st ps tasks) p j == 0).
+Proof. exact pn_observe_mean. Qed.
+Print Assumptions C10_pipelineNd_rows_are_means.
+
+Theorem C10_pipelineNd_history_independent :
+  forall st st' h, pn_history st h = pn_history st' h.
+Proof. exact pn_history_independent. Qed.
+Print Assumptions C10_pipelineNd_history_independent.
 
 (* non-vacuity: the hypotheses of the Cartesian theorem and of the k-interval theorem are satisfiable *)
 Example C10_nonvacuous :
